@@ -216,6 +216,8 @@ def run(case):
             )
             facts = {"unphased_individual_partly_missing": a_missing}
             if got != want:
+                # known finding F12 only miscounts singletons (or asserts); block edges and spans must still be right
+                facts = dict(facts, block_edges_and_spans_match=sorted(g[:2] for g in got) == sorted(w[:2] for w in want))
                 bad("blocks_wrong", f"got (edges,span,singletons) {got} want {want}", sub, **facts)
             else:
                 # every singleton of an unphased individual points at the block holding its position
